@@ -148,6 +148,10 @@ class World:
                         self.methods.setdefault(rest[2:], []).append((c, name, im))
                     continue
                 self.free.setdefault(name, []).append((c, name))
+        self._macro_impls()
+        self.impl_of = {}
+        for meth, lst in self.methods.items():
+            for c, key, im in lst: self.impl_of[(c, key)] = im
         self.res_cache = {}; self.const_vals = {}
         self.solver = z3.Solver(); self.queries = 0; self.solver_time = 0.0
         self.step_limit = 400000; self.bodies_run = set(); self.models_used = set(); self.steps_total = 0
@@ -155,6 +159,50 @@ class World:
         self.hash_order = 'insertion'          # or 'symbolic': iteration order of std hash containers is chosen by the solver
 
     def body(self, ref): return self.files[ref[0]].body(ref[1])
+
+    def _macro_impls(self):
+        """bodies of impls generated by one macro share their `<impl at ..>` name (MirFile keeps them as name@@k).  The dump prints the
+        methods of one impl consecutively, so the instances are recovered by file order and their self type from the method headers
+        (`cast(..) -> Option<X>`, `syntax(_1: &X)`, `fmt(_1: &X, ..)`).  This association is validated by the differential self-test."""
+        from .typetab import Impl
+        for c, f in self.files.items():
+            groups = {}                                 # impl prefix -> list of instances {method: key}
+            for key in f.order:
+                if f.spans[key][2] != 'fn': continue
+                base = key.split('@@')[0]
+                ms_ = list(_IMPL_AT.finditer(base))
+                if not ms_: continue
+                last = ms_[-1]; rest = base[last.end():]
+                if not re.fullmatch(r'::\w+', rest): continue
+                prefix = base[:last.end()]; meth = rest[2:]
+                g = groups.setdefault(prefix, [])
+                if not g or meth in g[-1]: g.append({})
+                g[-1][meth] = key
+            for prefix, insts in groups.items():
+                if len(insts) < 2: continue
+                for inst in insts:
+                    selfty = None; trait = None
+                    for meth, key in inst.items():
+                        st, en, _k = f.spans[key]; head = f.text[st:f.text.index('\n', st)]
+                        if meth == 'cast':
+                            m = re.search(r'-> (?:std::option::)?Option<(.+)> \{$', head)
+                            if m: selfty = m.group(1); trait = 'CstNode'
+                        elif meth in ('syntax', 'fmt') and selfty is None:
+                            m = re.search(r'\(_1: &(?:mut )?([\w:]+)', head)
+                            if m: selfty = m.group(1); trait = 'CstNode' if meth == 'syntax' else 'Display'
+                    if selfty is None: continue
+                    if 'fmt' in inst and 'cast' not in inst: trait = 'Display'
+                    name = selfty.split('::')[-1]
+                    im = Impl(); im.crate = c; im.file = ''; im.line = im.col = 0; im.self_ty = None; im.trait = trait; im.trait_args = None
+                    im.methods = list(inst); im.self_key = name; im.self_adt = None; im.generics = []
+                    cands = [a for a in self.tt.by_name.get(name, []) if a.crate == c]
+                    if len(cands) == 1: im.self_adt = cands[0]
+                    for meth, key in inst.items():
+                        lst = self.methods.setdefault(meth, [])
+                        lst[:] = [h for h in lst if not (h[0] == c and h[1] == key)]
+                        # drop the ambiguous span-based registration of the shared name
+                        lst[:] = [h for h in lst if not (h[0] == c and h[1] == key.split('@@')[0] and h[2] is not None and h[2].self_key != name and '@@' not in key)]
+                        lst.append((c, key, im))
 
     # ---------------------------------------------------------------- call-site -> body
     def resolve(self, callee, from_crate):
@@ -215,6 +263,7 @@ class World:
             if r is not None: return r
             if segs[0] in ('std', 'core', 'alloc') or any(x.startswith('<') for x in segs): return None      # never fall back for library paths
             for k in range(1, len(segs)):           # a longer path than the trimmed one MIR printed for the definition
+                if any(not x or x[0].isupper() for x in segs[:k]): break        # only module / crate segments may be dropped, never a type
                 hits = self.free.get('::'.join(segs[k:]), [])
                 if hits: return self._pick(hits, from_crate, g)
             return None
@@ -227,6 +276,7 @@ class World:
             refs += '&'; sty = sty[1:].strip()
             if sty.startswith('mut '): sty = sty[4:]
         tsegs = split_path(mt.strip_generics(sty)) if re.match(r'[\w:]+', sty) else [sty]
+        tsegs = [re.sub(r'<.*>$', '', x) if re.match(r'\w+<', x) else x for x in tsegs]      # `Type<Args>` -> `Type`
         last = tsegs[-1].replace(' ', '')
         if last in self.tt.aliases and last not in self.tt.by_name: last = self.tt.aliases[last]; tsegs = [last]
         skey = refs + last
@@ -270,6 +320,61 @@ class World:
             raise Unsupported('ambiguous method %s::%s (trait %s): %s' % (sty, meth, trait, [h[1] for h in cands][:5]))
         return cands[0][:2]
 
+    def promoted(self, ref, n):
+        """the promoted constant #n of body `ref`: printed right after that body in the dump"""
+        f = self.files[ref[0]]
+        oi = f.__dict__.setdefault('order_index', None)
+        if oi is None: oi = f.order_index = {k: i for i, k in enumerate(f.order)}
+        i = oi.get(ref[1])
+        if i is None: return None
+        want = '::promoted[%d]' % n
+        for k in f.order[i + 1:i + 40]:
+            if f.spans[k][2] == 'fn': break
+            if k.split('@@')[0].endswith(want): return (ref[0], k)
+        return None
+
+    def call_subst(self, callee, ref):
+        """type-parameter substitution for executing the (polymorphic) body `ref` when called as `callee`"""
+        c = mt.strip_lifetimes(callee); out = {}
+        im = self.impl_of.get(ref)
+        if im is not None and getattr(im, 'generics', None) and im.self_ty and c.startswith('<'):
+            d = mt.depths(c)
+            for i in range(len(c)):
+                if c.startswith(' as ', i) and d[i] == 1:
+                    sty = c[1:i]; break
+            else: sty = None
+            if sty is None:
+                close = [i for i, ch in enumerate(c) if ch == '>' and d[i + 1] == 0]
+                sty = c[1:close[0]] if close else None
+            t = im.self_ty
+            while t and 'borrowed_ref' in t: t = t['borrowed_ref']['type']
+            if sty and t and 'resolved_path' in t:
+                decl = [a['type'] for a in ((t['resolved_path'].get('args') or {}).get('angle_bracketed', {}).get('args', [])) if 'type' in a]
+                actual = type_args_of(sty.lstrip('&').replace('mut ', '', 1) if sty.startswith('&') else sty)
+                for dj, act in zip(decl, actual):
+                    if 'generic' in dj and dj['generic'] in im.generics: out[dj['generic']] = act
+        elif im is not None and getattr(im, 'generics', None) and im.self_ty and not c.startswith('<'):
+            # inherent: `Type::<A>::method` / `module::Type::<A>::method`
+            g = c.rsplit('::', 1)[0]
+            actual = type_args_of(g.replace('::<', '<')) if g.endswith('>') else []
+            t = im.self_ty
+            if t and 'resolved_path' in t:
+                decl = [a['type'] for a in ((t['resolved_path'].get('args') or {}).get('angle_bracketed', {}).get('args', [])) if 'type' in a]
+                for dj, act in zip(decl, actual):
+                    if 'generic' in dj: out[dj['generic']] = act
+        # function-level generics from the turbofish
+        if c.endswith('>') and '::<' in c:
+            d = mt.depths(c); j = len(c) - 1; k = j
+            while k >= 0 and not (c[k] == '<' and d[k] == d[j + 1]): k -= 1
+            if k >= 2 and c[k - 2:k] == '::':
+                actual = [x for x in mt.split_top(c[k + 1:j]) if not x.startswith("'")]
+                fname = split_path(mt.strip_generics(c))[-1]
+                cands = self.tt.fn_generics.get((ref[0], fname), [])
+                cands = [g for g in cands if len(g) == len(actual)] or [g for g in cands if len(g) <= len(actual)]
+                if len(set(map(tuple, cands))) == 1:
+                    for name, act in zip(cands[0], actual): out.setdefault(name, act)
+        return out
+
     def const_ref(self, name, from_crate):
         g = mt.strip_generics(mt.strip_lifetimes(name))
         hits = self.consts.get(g)
@@ -294,6 +399,21 @@ class World:
                 if len(h3) == 1: return h3[0]
             raise Unsupported('ambiguous const %s: %s' % (name, hits[:5]))
         return hits[0]
+
+def type_args_of(t):
+    """top-level generic arguments of a printed type `Name<A, B>` (also `path::Name::<A>`) -> [A, B]"""
+    t = t.strip()
+    if not t.endswith('>'): return []
+    d = mt.depths(t); j = len(t) - 1; k = j
+    while k >= 0 and not (t[k] == '<' and d[k] == d[j + 1]): k -= 1
+    if k <= 0: return []
+    return [x for x in mt.split_top(t[k + 1:j]) if not x.startswith("'")]
+
+def apply_subst(text, subst):
+    if not subst: return text
+    for name, val in subst.items():
+        text = re.sub(r'(?<![\w:])%s(?![\w])' % re.escape(name), val, text)
+    return text
 
 def segs_first_is_crate(g, files):
     s = split_path(g); return bool(s) and s[0] in files
@@ -374,7 +494,7 @@ class Exec:
         s.upc = []
         s.dom = {}; s.entangled = set()
         for a in assumptions: s._add(a)
-        s.fresh = 0; s.notes = {}
+        s.fresh = 0; s.notes = {}; s.tsubst = [{}]; s.refs = []
 
     def close(s): s.solver.pop()
 
@@ -643,10 +763,15 @@ class Exec:
 
     def path_const(s, text, body, hint=None, zst=False):
         W = s.W
+        if s.tsubst[-1]: text = apply_subst(text, s.tsubst[-1])
         g = mt.strip_generics(mt.strip_lifetimes(text))
         if g.startswith('fn(') or g.startswith('for<'):
             m = re.search(r'\{([^{}]+)\}$', g)
             if m: return FnItem(m.group(1))
+        mp = re.search(r'::promoted\[(\d+)\]$', text)
+        if mp and s.refs:
+            pr = W.promoted(s.refs[-1], int(mp.group(1)))
+            if pr is not None: return s.eval_const(pr)
         ref = W.const_ref(text, body.crate)
         if ref is not None: return s.eval_const(ref)
         m = re.fullmatch(r'(?:core::|std::)?(f32|f64)::(?:<impl f(?:32|64)>::)?(MAX|MIN|INFINITY|NEG_INFINITY|NAN)', g)
@@ -877,7 +1002,7 @@ class Exec:
     def call(s, callee, args, crate='compiler'):
         """call by printed path (used by harness entry points and models)"""
         ref = s.W.resolve(callee, crate)
-        if ref is not None: return s.run_body(ref, args)
+        if ref is not None: return s.run_body(ref, args, s.W.call_subst(callee, ref))
         return s.W.model(s, callee, args, crate)
 
     def call_value(s, f, args):
@@ -900,7 +1025,7 @@ class Exec:
     def call_fnitem(s, f, args, crate='compiler'):
         for cr in [crate] + [c for c in s.W.files if c != crate]:
             ref = s.W.resolve(f.path, cr)
-            if ref is not None: return s.run_body(ref, list(args))
+            if ref is not None: return s.run_body(ref, list(args), s.W.call_subst(f.path, ref))
         # tuple-variant / tuple-struct constructor used as a function
         g = mt.strip_generics(mt.strip_lifetimes(f.path)); segs = split_path(g)
         try: fv = s.W.tt.find_variant(segs, crate)
@@ -909,7 +1034,12 @@ class Exec:
             adt, idx = fv; return Agg(adt.key if adt.crate != 'std' else adt.name, idx, list(args))
         return s.W.model(s, f.path, list(args), crate)
 
-    def run_body(s, ref, args):
+    def run_body(s, ref, args, subst=None):
+        s.tsubst.append(subst or {}); s.refs.append(ref)
+        try: return s._run_body(ref, args)
+        finally: s.tsubst.pop(); s.refs.pop()
+
+    def _run_body(s, ref, args):
         W = s.W
         stub = W.stubs.get(ref[1]) if W.stubs else None
         if stub is not None:                 # environment stub declared by the obligation (listed in its evidence)
@@ -990,9 +1120,10 @@ class Exec:
                 if cal[0] == 'op':
                     r = s.call_value(s.operand(frame, cal[1], body), a)
                 else:
-                    tgt = W.resolve(cal[1], body.crate)
-                    if tgt is not None: r = s.run_body(tgt, a)
-                    else: r = W.model(s, cal[1], a, body.crate)
+                    ctext = apply_subst(cal[1], s.tsubst[-1]) if s.tsubst[-1] else cal[1]
+                    tgt = W.resolve(ctext, body.crate)
+                    if tgt is not None: r = s.run_body(tgt, a, W.call_subst(ctext, tgt))
+                    else: r = W.model(s, ctext, a, body.crate)
                 if ret is None: raise Unsupported('diverging call returned: ' + cal[1])
                 if dest is not None:
                     if dest[0] == 'local': frame[dest[1]] = r
